@@ -228,7 +228,7 @@ class Run:
         self.hist[key] = self.hist.get(key, 0) + k
 
     def sub_rng(self, tag):
-        return random.Random("%s/%s/%d/%s" % (self.prop, self.tier, self.seed, tag))
+        return random.Random("%s/%s/%d/%s%s" % (self.prop, self.tier, self.seed, tag, getattr(self, "salt", "")))
 
 
 def digest(obj):
